@@ -10,6 +10,7 @@ CONSTANTS
   QCap = 0
   Gating = FALSE
   QfRet = TRUE
+  LexG = "full"
 INVARIANT InvAllClauses
 INVARIANT InvNeverStuck
 INVARIANT InvDelivered
